@@ -15,7 +15,7 @@ import itertools
 
 from gmg import conc, dag, ir, opsdom, report, symdom
 from gmg.conc import Arr, PtrInto
-from gmg.interp import Cell, Interp, Obj
+from gmg.interp import ThrowEx, Cell, Interp, Obj
 from gmg.symdom import SArr
 
 CLS = "SparseLUSolver<double>"
@@ -52,6 +52,8 @@ class LUDomain(opsdom.OpsDomain):
         opsdom.OpsDomain.__init__(self, prog, record=False)
         self.reverse = reverse_iteration
         self.pivot_tests = 0
+        self.force_small = None   # index of the magnitude test that is to find its operand below the threshold
+        self.forced_site = None
 
     def field_default(self, t, name):
         t0 = t.strip()
@@ -103,7 +105,11 @@ class LUDomain(opsdom.OpsDomain):
             # `std::abs(diag) < 1e-12`: pivots are assumed non-vanishing (hypothesis of the property)
             A, B = dag.lift(a), dag.lift(b)
             if A.op == "f" and A.a in ("abs", "fabs") and B.op == "c":
+                k = self.pivot_tests
                 self.pivot_tests += 1
+                if self.force_small is not None and k == self.force_small:
+                    self.forced_site = ir.locstr(e)
+                    return op in ("<", "<=")
                 return op in (">", ">=")
         return opsdom.OpsDomain.abs_binop(self, op, a, b, e, fr)
 
@@ -283,6 +289,7 @@ def main(tier):
         cases.append((name, n, pat))
     n_runs = 0
     pivots = 0
+    n_forced = [0]
     for name, n, pat in cases:
         entries = {(i, i): dag.atom("a_%d_%d" % (i, i)) for i in range(n)}
         for (i, j) in pat:
@@ -306,35 +313,56 @@ def main(tier):
                 elif order == "rotated" and len(r) > 1:
                     r = r[1:] + r[:1]
                 rows.append(r)
-            dom = LUDomain(prog, reverse_iteration=rev_iter)
-            it = Interp(prog, dom)
-            bad = None
-            try:
-                A = make_csr(dom, it, prog, n, rows)
-                lu = dom.new_object(CLS, None, None)
-                it.call_function(lu_ctor[0], lu, [Cell(A)])
-                for rhs_tag in ("b", "c"):
-                    x = SArr("rhs", n, gen=lambda j, t=rhs_tag: dag.atom("%s_%d" % (t, j)))
-                    it.call_function(solve[0], lu, [PtrInto(x, 0)])
-                    sol = [dag.lift(x.sym.get(i, dag.atom("%s_%d" % (rhs_tag, i)))) for i in range(n)]
-                    for i in range(n):
-                        lhs = dag.total(dag.mul(entries[(i, j)], sol[j]) for j in range(n) if (i, j) in entries)
-                        if not dag.equal(lhs, dag.atom("%s_%d" % (rhs_tag, i))):
-                            bad = "right-hand side '%s': row %d of A x - b does not vanish identically" % (rhs_tag, i)
+            def run_case(force):
+                dom = LUDomain(prog, reverse_iteration=rev_iter)
+                dom.force_small = force
+                it = Interp(prog, dom)
+                bad = None
+                aborted = False
+                try:
+                    A = make_csr(dom, it, prog, n, rows)
+                    lu = dom.new_object(CLS, None, None)
+                    it.call_function(lu_ctor[0], lu, [Cell(A)])
+                    for rhs_tag in ("b", "c"):
+                        x = SArr("rhs", n, gen=lambda j, t=rhs_tag: dag.atom("%s_%d" % (t, j)))
+                        it.call_function(solve[0], lu, [PtrInto(x, 0)])
+                        sol = [dag.lift(x.sym.get(i, dag.atom("%s_%d" % (rhs_tag, i)))) for i in range(n)]
+                        for i in range(n):
+                            lhs = dag.total(dag.mul(entries[(i, j)], sol[j]) for j in range(n) if (i, j) in entries)
+                            if not dag.equal(lhs, dag.atom("%s_%d" % (rhs_tag, i))):
+                                bad = "right-hand side '%s': row %d of A x - b does not vanish identically" % (rhs_tag, i)
+                                break
+                        if bad:
                             break
-                    if bad:
+                except ir.AnalysisBroken as ex:
+                    raise
+                except Aborts as ex:
+                    aborted = True
+                    if force is None:
+                        bad = "the solver terminates the process although every pivot of this pattern is a non-vanishing symbol: %s" % ex
+                except ThrowEx as ex:
+                    aborted = True
+                    if force is None:
+                        bad = "the solver throws although every pivot of this pattern is a non-vanishing symbol: %s" % ex.what
+                except ZeroDivisionError as ex:
+                    bad = "division by an identically zero pivot: %s" % ex
+                return dom, bad, aborted
+            dom, bad, _ = run_case(None)
+            # value-dependent magnitude tests: the one legitimate kind rejects the matrix (a pivot below the threshold ends in
+            # exit/throw: outside the property's hypothesis).  A test that finds some entry "small" and CARRIES ON must not change
+            # the solution - unless that entry is identically zero, every such branch drops information.
+            if not bad and (n <= 3 or name in NAMED) and order == "sorted" and not rev_iter:
+                for kf in range(dom.pivot_tests):
+                    d2, bad2, aborted2 = run_case(kf)
+                    n_forced[0] += 1
+                    if not aborted2 and bad2:
+                        bad = "when the magnitude test at %s finds its operand below the threshold the solve carries on and %s (an entry of the factors is dropped by an absolute tolerance)" % (d2.forced_site, bad2)
                         break
-            except ir.AnalysisBroken as ex:
-                raise
-            except Aborts as ex:
-                bad = "the solver terminates the process although every pivot of this pattern is a non-vanishing symbol: %s" % ex
-            except ZeroDivisionError as ex:
-                bad = "division by an identically zero pivot: %s" % ex
             pivots += dom.pivot_tests
             if dom.oob:
                 bad = "out-of-range access %s[%s] (length %s) at %s" % dom.oob[0]
             if bad:
-                ck.violation("R-C16-1", "lu:%s" % bad.split(":")[0][:40], ir.locstr(solve[0]), "%s: %s" % (key, bad))
+                ck.violation("R-C16-1", "lu:%s" % ("magnitude-test-drops-entry" if "magnitude test" in bad else bad.split(":")[0][:40]), ir.locstr(solve[0]), "%s: %s" % (key, bad))
             else:
                 ck.ok("R-C16-1", key, sample={"case": key} if n_runs in (3, 40, 400) else None)
     # ---- R-C16-2
@@ -348,6 +376,7 @@ def main(tier):
             ck.violation("R-C16-2", "solveInPlace:non-const", ir.locstr(f), "%s is no longer const: a solve may modify the factors" % key)
     ck.extra["cases"] = n_runs
     ck.extra["pivot_tests_assumed_nonzero"] = pivots
+    ck.extra["magnitude_tests_forced_small"] = n_forced[0]
     return ck.finish(
         "The sparse LU solver is interpreted from source (constructor, hash-map elimination with dynamic fill-in, conversion to CSR "
         "factors, forward/backward substitution) in the exact rational-function domain: the matrix entries are independent symbols, so "
